@@ -7,7 +7,6 @@ import (
 	"crypto/sha256"
 
 	"github.com/codenotary/immudb/embedded/ahtree"
-	"github.com/codenotary/immudb/embedded/appendable"
 	"github.com/codenotary/immudb/embedded/cache"
 	"github.com/codenotary/immudb/embedded/verifrt"
 	"github.com/codenotary/immudb/embedded/watchers"
@@ -389,8 +388,25 @@ func VerifH_PerformPrecommitStep() {
 		appended = append(appended, append([]byte(nil), d...))
 		return 0, [sha256.Size]byte{}, nil
 	})
+	// the tx-log cache is a one-slot model for the id about to be assigned; it may already hold a
+	// stale record under that id (a transaction precommitted earlier under the same id, read
+	// while precommitted, then discarded)
+	var cachedRec []byte
+	cachedSet := false
+	if verifrt.Bool("staleCacheEntry") {
+		cachedRec, cachedSet = verifrt.Bytes("staleRecord", 8), true
+	}
 	verifrt.Stub("(*embedded/cache.Cache).Put", func(c *cache.Cache, key interface{}, value interface{}) (interface{}, interface{}, error) {
+		if id, ok := key.(uint64); ok && id == f.p+1 {
+			cachedRec, cachedSet = value.([]byte), true
+		}
 		return nil, nil, nil
+	})
+	verifrt.Stub("(*embedded/cache.Cache).Get", func(c *cache.Cache, key interface{}) (interface{}, error) {
+		if id, ok := key.(uint64); ok && id == f.p+1 && cachedSet {
+			return cachedRec, nil
+		}
+		return nil, cache.ErrKeyNotFound
 	})
 
 	tx := NewTx(ne, 4)
@@ -456,8 +472,10 @@ func VerifH_PerformPrecommitStep() {
 	}
 	verifrt.Assert(off == int64(L+prefix), "record sits right at the old frontier (after the embedded values)")
 	verifrt.Assert(st.precommittedTxLogSize == off+int64(size) && int64(len(f.txLog.b)) == off+int64(size), "new frontier is the end of the record and of the log")
-	// read the record back with the real reader
-	r := appendable.NewReaderFrom(f.txLog, off, size)
+	// read the record back the way every reader of the store does (tx-log cache first), with
+	// the real record reader: a stale cache entry under the same id must not be served
+	r, err := st.appendableReaderForTx(h.ID, true)
+	verifrt.Assert(err == nil, "a reader for the precommitted transaction")
 	tx2 := NewTx(ne, 4)
 	verifrt.Assert(tx2.readFrom(r, false) == nil, "the record is readable")
 	h2 := tx2.header
